@@ -28,7 +28,9 @@ func TestZZVerifRun(t *testing.T) {
 	tr := 3000
 	type cfg struct{ n, length, bits, chunk uint }
 	cfgs := []cfg{{2, 3, 2, 0}, {1, 3, 2, 2}, {2, 1, 1, 1}, {2, 3, 2, 2}, {3, 4, 3, 5}, {2, 5, 1, 3}, {2, 2, 64, 7}, {5, 10, 8, 9}, {2, 3, 2, 100},
-		{2, 1 + uint(rng.Intn(6)), 1 + uint(rng.Intn(10)), 1 + uint(rng.Intn(8))}}
+		{2, 1 + uint(rng.Intn(6)), 1 + uint(rng.Intn(10)), 1 + uint(rng.Intn(8))},
+		{8, 3, 2, 2},     // eight aggregators: 1/8 comes from the table of small inverses
+		{2, 100, 16, 10}} // 160 gadget calls: the gadget polynomial has 512 coefficients
 	if thorough {
 		cfgs = append(cfgs, cfg{255, 3, 3, 2}, cfg{2, 40, 16, 25})
 		for i := 0; i < 10; i++ {
@@ -60,7 +62,7 @@ func TestZZVerifRun(t *testing.T) {
 			t.Fatal(err)
 		}
 		f2, _ := newFlpSumVec(c.length, c.bits, c.chunk)
-		s := &zzverifrun.Session[[]uint64, []uint64, Vec, Fp, *Fp]{Tr: tr, Inst: "sumvec", Bits: int(c.bits), Length: int(c.length), Pub: s0, Raw: &raw, Encode: f2.Encode, NAlter: 1,
+		s := &zzverifrun.Session[[]uint64, []uint64, Vec, Fp, *Fp]{Tr: tr, Inst: "sumvec", Bits: int(c.bits), Length: int(c.length), Pub: s0, Raw: &raw, Encode: f2.Encode, NAlter: nalter(c.length * c.bits),
 			MeasJSON: func(m []uint64) interface{} {
 				x := make([][]int, len(m))
 				for i := range m {
@@ -104,4 +106,12 @@ func TestZZVerifRun(t *testing.T) {
 		}
 		zzverifrun.Run(s, rng, emit)
 	}
+}
+
+// nalter: altered copies are made of small reports only (every alteration site on a 1600-element encoding would dominate the run)
+func nalter(encLen uint) int {
+	if encLen > 400 {
+		return 0
+	}
+	return 1
 }
